@@ -31,8 +31,13 @@ from .values import (  # noqa: F401
     imax,
     imin,
     implies,
+    is_none,
+    iround,
     ite,
+    itrunc,
+    to_real,
     mk_bool,
+    val,
     neg,
 )
 
@@ -464,4 +469,65 @@ class VerifyTask:
         res.obligations = [o.as_dict() | ({"smt2": o.smt2} if o.smt2 else {}) for o in ex.results()]
         res.used_contracts = sorted(self.used_contracts)
         res.inlined = sorted(self.inlined)
+        return res
+
+
+class Lemma(Contract):
+    """A lemma over spec functions: `claim(a)` must follow from `requires(a)` for all values of `params`."""
+
+    is_lemma = True
+
+    def claim(self, a):
+        return ()
+
+
+def lemma(name, property=None, **kw):  # noqa: A002
+    def deco(cls):
+        ns = {k: v for k, v in cls.__dict__.items() if not k.startswith("__")}
+        ns.update(kw)
+        ns["target"] = f"lemma:{name}"
+        ns["property"] = property
+        for fn in ("requires", "claim"):
+            if fn in ns and inspect.isfunction(ns[fn]):
+                ns[fn] = staticmethod(ns[fn])
+        inst = type(cls.__name__, (Lemma,), ns)()
+        REGISTRY[inst.target] = inst
+        return inst
+
+    return deco
+
+
+class LemmaTask:
+    def __init__(self, c, config=None):
+        self.c = c
+        self.config = config or Config()
+        self.name = f"{c.property}/{c.target}"
+
+    def run(self):
+        res = TaskResult(self.name)
+        res.target = self.c.target
+        res.property = self.c.property
+        res.source_hash = "lemma"
+        ex = Explorer(self.config)
+        t0 = time.time()
+
+        def body(st):
+            vals = {k: shp.fresh(st, k) for k, shp in self.c.params.items()}
+            ex.inputs = dict(vals)
+            a = View(vals)
+            pre = self.c.requires(a)
+            st.assume(pre if isinstance(pre, (SBool, bool)) else mk_bool(V._zb(pre)))
+            st.cover(f"{self.name}/cover@pre")
+            for label, fml in self.c._gen(self.c.claim(a)):
+                st.oblige(f"{self.name}/{label}", fml, "lemma")
+
+        try:
+            ex.run(body)
+        except Unsupported as e:
+            res.status, res.message = "unsupported", str(e)
+        except Exception as e:  # noqa: BLE001
+            res.status, res.message = "error", f"{type(e).__name__}: {e}\n{traceback.format_exc()}"
+        res.wall = time.time() - t0
+        res.paths, res.solver_time, res.queries = ex.paths, ex.solver_time, ex.queries
+        res.obligations = [o.as_dict() | ({"smt2": o.smt2} if o.smt2 else {}) for o in ex.results()]
         return res
